@@ -14,9 +14,9 @@ func init() { checks["C20"] = checkC20 }
 type chainProg struct {
 	src       string
 	depth     int
-	fname     []string       // display name of level i ("main.f3" or "main.T.m3")
-	callLine  []int          // line of the call from level i to level i+1
-	faultLine []map[int]int  // level → fault kind → line
+	fname     []string      // display name of level i ("main.f3" or "main.T.m3")
+	callLine  []int         // line of the call from level i to level i+1
+	faultLine []map[int]int // level → fault kind → line
 	variant   string
 }
 
